@@ -732,9 +732,6 @@ Proof.
 Qed.
 
 (* ------------------------------------------------------------------ C12: repetitions are exact translates *)
-Definition translates (base : list Z) (L reps : Z) : list (list Z) :=
-  map (fun i => map (fun x => x + i * L) base) (zrange 0 reps).
-
 Lemma find_unique {A} (key : A -> Z) (l : list A) (k : A) :
   NoDup (map key l) -> In k l -> find (fun k' => Z.eqb (key k') (key k)) l = Some k.
 Proof.
